@@ -37,9 +37,18 @@ fn confs() -> Vec<Conf> {
         HSpec::with_ops(HKind::DocText, "", vec![Op::SetText(e(""))]),
     ];
     let meta = Cfg { adjust_charset: true, ..Cfg::with(vec![HSpec::obs(HKind::DocText, ""), HSpec::with_ops(HKind::DocEnd, "", vec![Op::Append(e("\u{416}"), false)])]) };
+    // the same insertions through the streaming_* variants (the streaming sink gets empty pieces
+    // and a character split over two pieces), in UTF-8 and in a legacy encoding
+    let streaming = vec![
+        HSpec::with_ops(HKind::Element, "a", vec![Op::Before(e(""), true), Op::After(e("\u{e9}"), false), Op::Prepend(e(""), true), Op::Append(e("x"), true)]),
+        HSpec::with_ops(HKind::DocComments, "", vec![Op::Before(e(""), true), Op::After(e(""), false)]),
+        HSpec::with_ops(HKind::DocText, "", vec![Op::Replace(e(""), true)]),
+    ];
     vec![
         Conf { name: "none", cfg: Cfg::default() },
         Conf { name: "observers", cfg: Cfg::with(everything) },
+        Conf { name: "streaming insertions with empty pieces", cfg: Cfg::with(streaming.clone()).streaming(true) },
+        Conf { name: "streaming insertions with empty pieces (windows-1252)", cfg: Cfg::with(streaming).streaming(true).enc("windows-1252") },
         Conf { name: "empty-payload markers", cfg: Cfg::with(empties) },
         Conf { name: "empty names + doc-end appends", cfg: Cfg::with(names) },
         Conf { name: "empty replacements", cfg: Cfg::with(repl) },
